@@ -64,6 +64,10 @@ def mkval(spec):
         return Sub
     if kind == "func":
         return _func
+    if kind == "role":        # a Role object: part of a Bundle's `roles`, never an attribute of a Module or a Bundle
+        return h.Role(name="Host")
+    if kind == "roleset":
+        return h.RoleSet.from_names(["Host", "Device"])
     raise ValueError(kind)
 
 
